@@ -21,9 +21,13 @@ From Asynq Require Import Machine proofs.ProgProofs proofs.MachineFrame proofs.M
 Definition plain (e : event) : Prop :=
   match e with EvBefore _ _ | EvAfter _ _ => False | _ => True end.
 
-(* events a helper other than complete_item may emit *)
+(* events a helper outside BatchBase.flush may emit *)
 Definition tame (e : event) : Prop :=
-  match e with EvBefore _ _ | EvAfter _ _ | EvItemDone _ _ => False | _ => True end.
+  match e with EvBefore _ _ | EvAfter _ _ | EvItemDone _ _ | EvFlush _ _ _ => False | _ => True end.
+
+(* the completion of one of [items] *)
+Definition done_in (items : list fid) (e : event) : Prop :=
+  match e with EvItemDone h _ => In h items | _ => False end.
 
 Definition is_item (h : fid) (e : event) : bool :=
   match e with EvItemDone h' _ => fid_eqb h h' | _ => false end.
@@ -39,13 +43,20 @@ Definition dom (s : st) : Prop := forall h, get h s <> None -> exists n, h = [n]
 Definition grows (s s' : st) (evs : list event) : Prop :=
   dom s -> dom s' /\ forall h, (cnt h evs + b2n (computed h s) <= b2n (computed h s'))%nat.
 
-Definition mild (s s' : st) : Prop :=
-  exists evs, trace s' = evs ++ trace s /\ Forall plain evs /\ grows s s' evs.
+(* s' extends s by events satisfying Q *)
+Definition ext (Q : list event -> Prop) (s s' : st) : Prop :=
+  exists evs, trace s' = evs ++ trace s /\ Q evs /\ grows s s' evs.
+
+Definition mild : st -> st -> Prop := ext (Forall tame).
+Definition fl (items : list fid) : st -> st -> Prop := ext (Forall (done_in items)).
 
 Lemma cnt_app h a b : cnt h (a ++ b) = (cnt h a + cnt h b)%nat.
 Proof. unfold cnt. rewrite filter_app, app_length. reflexivity. Qed.
 
 Lemma tame_plain e : tame e -> plain e.
+Proof. destruct e; cbn; auto. Qed.
+
+Lemma done_in_plain items e : done_in items e -> plain e.
 Proof. destruct e; cbn; auto. Qed.
 
 Lemma tame_cnt h e : tame e -> cnt h [e] = O.
@@ -60,29 +71,56 @@ Proof.
   intros h. rewrite cnt_app. specialize (Ca h). specialize (Cb h). lia.
 Qed.
 
-Lemma mild_refl s : mild s s.
-Proof. exists []. split; [reflexivity|]. split; [constructor|apply grows_refl]. Qed.
-
-Lemma mild_trans a b c : mild a b -> mild b c -> mild a c.
+Lemma grows_view s s' : heap s' = heap s -> top_next s' = top_next s -> grows s s' [].
 Proof.
-  intros (ea & Ta & Fa & Ga) (eb & Tb & Fb & Gb). exists (eb ++ ea).
-  split; [rewrite Tb, Ta, app_assoc; reflexivity|]. split; [apply Forall_app; auto|].
-  exact (grows_trans a b c ea eb Ga Gb).
-Qed.
-
-Lemma mild_view s s' : heap s' = heap s -> top_next s' = top_next s -> trace s' = trace s -> mild s s'.
-Proof.
-  intros Hh Hn Ht. exists []. split; [exact Ht|]. split; [constructor|]. intros D.
+  intros Hh Hn D.
   assert (G : forall h, get h s' = get h s) by (intros h; unfold get; rewrite Hh; reflexivity).
   split.
   - intros h Hg. rewrite G in Hg. rewrite Hn. exact (D h Hg).
   - intros h. unfold computed. rewrite G. cbn. lia.
 Qed.
 
+Lemma grows_emit e s : (forall h, is_item h e = false) -> grows s (emit e s) [e].
+Proof.
+  intros H D. split; [exact D|]. intros h. unfold cnt. cbn [filter]. rewrite H.
+  change (computed h (emit e s)) with (computed h s). cbn. lia.
+Qed.
+
+Lemma ext_refl (Q : list event -> Prop) s : Q [] -> ext Q s s.
+Proof. intros H. exists []. split; [reflexivity|]. split; [exact H|apply grows_refl]. Qed.
+
+Lemma ext_trans (Q : list event -> Prop) a b c :
+  (forall x y, Q x -> Q y -> Q (y ++ x)) -> ext Q a b -> ext Q b c -> ext Q a c.
+Proof.
+  intros HQ (ea & Ta & Fa & Ga) (eb & Tb & Fb & Gb). exists (eb ++ ea).
+  split; [rewrite Tb, Ta, app_assoc; reflexivity|]. split; [apply HQ; assumption|].
+  exact (grows_trans a b c ea eb Ga Gb).
+Qed.
+
+Lemma Forall_app_rev {A} (R : A -> Prop) x y : Forall R x -> Forall R y -> Forall R (y ++ x).
+Proof. intros Hx Hy. apply Forall_app. auto. Qed.
+
+Lemma mild_refl s : mild s s.
+Proof. apply ext_refl. constructor. Qed.
+
+Lemma mild_trans a b c : mild a b -> mild b c -> mild a c.
+Proof. apply ext_trans. apply Forall_app_rev. Qed.
+
+Lemma fl_refl items s : fl items s s.
+Proof. apply ext_refl. constructor. Qed.
+
+Lemma fl_trans items a b c : fl items a b -> fl items b c -> fl items a c.
+Proof. apply ext_trans. apply Forall_app_rev. Qed.
+
+Lemma mild_view s s' : heap s' = heap s -> top_next s' = top_next s -> trace s' = trace s -> mild s s'.
+Proof.
+  intros Hh Hn Ht. exists []. split; [exact Ht|]. split; [constructor|apply grows_view; assumption].
+Qed.
+
 Lemma mild_emit e s : tame e -> mild s (emit e s).
 Proof.
-  intros H. exists [e]. split; [reflexivity|]. split; [repeat constructor; apply tame_plain; exact H|].
-  intros D. split; [exact D|]. intros h. rewrite (tame_cnt h e H). change (computed h (emit e s)) with (computed h s). lia.
+  intros H. exists [e]. split; [reflexivity|]. split; [repeat constructor; exact H|].
+  apply grows_emit. intros h. destruct e; try reflexivity; destruct H.
 Qed.
 
 Lemma get_put h h' f s : get h (put h' f s) = if fid_eqb h h' then Some f else get h s.
@@ -266,11 +304,11 @@ Proof.
 Qed.
 
 (* the one helper that emits EvItemDone: only for an entry without outcome, which gets one *)
-Lemma mild_complete_item h o s : mild s (complete_item h o s).
+Lemma fl_complete_item items h o s : In h items -> fl items s (complete_item h o s).
 Proof.
-  unfold complete_item. destruct (get h s) as [f|] eqn:G; [|apply mild_refl].
-  destruct (f_out f) eqn:O; [apply mild_refl|].
-  exists [EvItemDone h o]. split; [reflexivity|]. split; [repeat constructor|]. intros D.
+  intros Hin. unfold complete_item. destruct (get h s) as [f|] eqn:G; [|apply fl_refl].
+  destruct (f_out f) eqn:O; [apply fl_refl|].
+  exists [EvItemDone h o]. split; [reflexivity|]. split; [repeat constructor; exact Hin|]. intros D.
   assert (G' : get h s <> None) by congruence.
   split; [exact (dom_put h _ s D G')|]. intros h0.
   change (computed h0 (emit (EvItemDone h o) (put h (mkFut (Some o) (f_kind f)) s)))
@@ -279,25 +317,59 @@ Proof.
   apply fid_eqb_eq in E. subst h0. unfold computed. rewrite G, O. cbn. lia.
 Qed.
 
-Lemma mild_flush_body items : forall i ra s, mild s (fst (flush_body items i ra s)).
+Lemma fl_flush_body all items : (forall h, In h items -> In h all) ->
+  forall i ra s, fl all s (fst (flush_body items i ra s)).
 Proof.
-  induction items as [|h rest IH]; intros i ra s; simpl.
-  - destruct ra as [[k e]|]; apply mild_refl.
-  - destruct ra as [[k e]|].
-    + destruct (Z.eqb i k); [apply mild_refl|]. eapply mild_trans; [|apply IH].
-      destruct (get h s) as [[o [ | kind idx key [v|e'|] | | ]]|]; try apply mild_refl; apply mild_complete_item.
-    + eapply mild_trans; [|apply IH].
-      destruct (get h s) as [[o [ | kind idx key [v|e'|] | | ]]|]; try apply mild_refl; apply mild_complete_item.
+  induction items as [|h rest IH]; intros Hsub i ra s; simpl.
+  - destruct ra as [[k e]|]; apply fl_refl.
+  - assert (Hh : In h all) by (apply Hsub; left; reflexivity).
+    assert (Hrest : forall h', In h' rest -> In h' all) by (intros h' Hi; apply Hsub; right; exact Hi).
+    destruct ra as [[k e]|].
+    + destruct (Z.eqb i k); [apply fl_refl|]. eapply fl_trans; [|apply IH; exact Hrest].
+      destruct (get h s) as [[o [ | kind idx key [v|e'|] | | ]]|]; try apply fl_refl; apply fl_complete_item; exact Hh.
+    + eapply fl_trans; [|apply IH; exact Hrest].
+      destruct (get h s) as [[o [ | kind idx key [v|e'|] | | ]]|]; try apply fl_refl; apply fl_complete_item; exact Hh.
 Qed.
 
-Lemma mild_flush_batch P k s : mild s (flush_batch P k s).
+Lemma fl_fold all o items : (forall h, In h items -> In h all) ->
+  forall s, fl all s (fold_left (fun s h => complete_item h o s) items s).
 Proof.
-  unfold flush_batch. destruct (b_done (get_batch k s)); [apply mild_refl|].
-  match goal with |- context [flush_body ?a ?b ?c ?d] =>
-    pose proof (mild_flush_body a b c d) as H; destruct (flush_body a b c d) as [s2 err] end.
-  cbn [fst] in H. mstep.
-  eapply mild_trans; [|apply mild_fold; intros; apply mild_complete_item].
-  eapply mild_trans; [|exact H]. mstep. destruct (Z.eqb _ _); mm.
+  induction items as [|h rest IH]; intros Hsub s; cbn [fold_left]; [apply fl_refl|].
+  eapply fl_trans; [apply fl_complete_item; apply Hsub; left; reflexivity|].
+  apply IH. intros h' Hi. apply Hsub. right. exact Hi.
+Qed.
+
+(* what one BatchBase.flush adds to the trace (newest first): the body's EvFlush with the batch's
+   items, then only completions of these items *)
+Definition fblock (k : Z * Z) (items : list fid) (evs : list event) : Prop :=
+  exists dones, evs = dones ++ [EvFlush (fst k) (snd k) items] /\ Forall (done_in items) dones.
+
+Lemma flush_batch_ext P k s :
+  b_done (get_batch k s) = false -> ext (fblock k (b_items (get_batch k s))) s (flush_batch P k s).
+Proof.
+  intros Hd. unfold flush_batch. rewrite Hd. set (items := b_items (get_batch k s)).
+  set (s0 := if Z.eqb (cur_idx (fst k) s) (snd k) then with_cur s (upd Z.eqb (fst k) (snd k + 1) (cur s)) else s).
+  assert (G0 : grows s s0 [] /\ trace s0 = trace s).
+  { unfold s0. destruct (Z.eqb _ _); (split; [apply grows_view; reflexivity|reflexivity]). }
+  destruct G0 as [G0 T0].
+  set (s1 := emit (EvFlush (fst k) (snd k) items) s0).
+  assert (G1 : grows s0 s1 [EvFlush (fst k) (snd k) items]) by (apply grows_emit; reflexivity).
+  pose proof (fl_flush_body items items (fun h H => H) 0 (ks_raise (kspec_of P (fst k))) s1) as H2.
+  destruct (flush_body items 0 (ks_raise (kspec_of P (fst k))) s1) as [s2 err]. cbn [fst] in H2.
+  destruct H2 as (e2 & T2 & F2 & G2).
+  set (fill := match err with Some e => Err e | None => Err E_NOTSET end).
+  destruct (fl_fold items fill items (fun h H => H) s2) as (e3 & T3 & F3 & G3).
+  set (s3 := fold_left (fun s h => complete_item h fill s) items s2) in *.
+  exists ((e3 ++ e2) ++ [EvFlush (fst k) (snd k) items]). split; [|split].
+  - change (trace (put_batch k (mkB (b_items (get_batch k s3)) true) s3)) with (trace s3).
+    rewrite T3, T2. change (trace s1) with (EvFlush (fst k) (snd k) items :: trace s0). rewrite T0.
+    rewrite <- !app_assoc. reflexivity.
+  - exists (e3 ++ e2). split; [reflexivity|]. apply Forall_app. auto.
+  - pose proof (grows_trans _ _ _ _ _ G0 G1) as G01. pose proof (grows_trans _ _ _ _ _ G01 G2) as G012.
+    pose proof (grows_trans _ _ _ _ _ G012 G3) as G0123.
+    assert (G4 : grows s3 (put_batch k (mkB (b_items (get_batch k s3)) true) s3) []) by (apply grows_view; reflexivity).
+    pose proof (grows_trans _ _ _ _ _ G0123 G4) as G. cbn [app] in G.
+    rewrite <- app_assoc. exact G.
 Qed.
 
 Lemma mild_select P s : mild s (snd (select P s)).
@@ -323,51 +395,84 @@ Qed.
 (* newest-first (the order of [trace s]) *)
 Inductive blocksR : list event -> Prop :=
 | blocksR_nil : blocksR []
-| blocksR_plain e tr : plain e -> blocksR tr -> blocksR (e :: tr)
-| blocksR_flush kind idx items dones tr :
-    items <> [] -> Forall flush_event dones -> blocksR tr ->
+| blocksR_tame e tr : tame e -> blocksR tr -> blocksR (e :: tr)
+| blocksR_sync kind idx items dones tr :
+    Forall (done_in items) dones -> blocksR tr ->
+    blocksR (dones ++ EvFlush kind idx items :: tr)
+| blocksR_sched kind idx items dones tr :
+    items <> [] -> Forall (done_in items) dones -> blocksR tr ->
     blocksR (EvAfter kind idx :: dones ++ EvFlush kind idx items :: EvBefore kind idx :: tr).
 
-(* chronological (the order of [snd (run_case ...)]) *)
+(* chronological (the order of [snd (run_case ...)]): tame events, flushes forced by a synchronous
+   item.value() (no bracket events), scheduler flushes (bracketed, never empty) *)
 Inductive blocks : list event -> Prop :=
 | blocks_nil : blocks []
-| blocks_plain e tr : plain e -> blocks tr -> blocks (e :: tr)
-| blocks_flush kind idx items dones tr :
-    items <> [] -> Forall flush_event dones -> blocks tr ->
+| blocks_tame e tr : tame e -> blocks tr -> blocks (e :: tr)
+| blocks_sync kind idx items dones tr :
+    Forall (done_in items) dones -> blocks tr ->
+    blocks (EvFlush kind idx items :: dones ++ tr)
+| blocks_sched kind idx items dones tr :
+    items <> [] -> Forall (done_in items) dones -> blocks tr ->
     blocks (EvBefore kind idx :: EvFlush kind idx items :: dones ++ EvAfter kind idx :: tr).
 
 Lemma blocksR_app a b : blocksR a -> blocksR b -> blocksR (a ++ b).
 Proof.
-  intros Ha Hb. induction Ha as [|e tr He Ht IH|kind idx items dones tr Hi Hd Ht IH]; [exact Hb| |].
-  - cbn [app]. apply blocksR_plain; assumption.
-  - cbn [app]. rewrite <- app_assoc. cbn [app]. apply blocksR_flush; assumption.
+  intros Ha Hb. induction Ha as [|e tr He Ht IH|kind idx items dones tr Hd Ht IH|kind idx items dones tr Hi Hd Ht IH]; [exact Hb| | |].
+  - cbn [app]. apply blocksR_tame; assumption.
+  - rewrite <- app_assoc. cbn [app]. apply blocksR_sync; assumption.
+  - cbn [app]. rewrite <- app_assoc. cbn [app]. apply blocksR_sched; assumption.
 Qed.
 
 Lemma blocks_app a b : blocks a -> blocks b -> blocks (a ++ b).
 Proof.
-  intros Ha Hb. induction Ha as [|e tr He Ht IH|kind idx items dones tr Hi Hd Ht IH]; [exact Hb| |].
-  - cbn [app]. apply blocks_plain; assumption.
-  - cbn [app]. rewrite <- app_assoc. cbn [app]. apply blocks_flush; assumption.
+  intros Ha Hb. induction Ha as [|e tr He Ht IH|kind idx items dones tr Hd Ht IH|kind idx items dones tr Hi Hd Ht IH]; [exact Hb| | |].
+  - cbn [app]. apply blocks_tame; assumption.
+  - cbn [app]. rewrite <- app_assoc. apply blocks_sync; assumption.
+  - cbn [app]. rewrite <- app_assoc. cbn [app]. apply blocks_sched; assumption.
 Qed.
 
-Lemma blocksR_all_plain evs : Forall plain evs -> blocksR evs.
-Proof. intros H. induction H as [|e evs He Hf IH]; [constructor|apply blocksR_plain; assumption]. Qed.
+Lemma blocksR_all_tame evs : Forall tame evs -> blocksR evs.
+Proof. intros H. induction H as [|e evs He Hf IH]; [constructor|apply blocksR_tame; assumption]. Qed.
 
 Lemma blocksR_rev tr : blocksR tr -> blocks (rev tr).
 Proof.
-  intros H. induction H as [|e tr He Ht IH|kind idx items dones tr Hi Hd Ht IH]; [constructor| |].
-  - cbn [rev]. apply blocks_app; [exact IH|]. apply blocks_plain; [exact He|constructor].
+  intros H. induction H as [|e tr He Ht IH|kind idx items dones tr Hd Ht IH|kind idx items dones tr Hi Hd Ht IH]; [constructor| | |].
+  - cbn [rev]. apply blocks_app; [exact IH|]. apply blocks_tame; [exact He|constructor].
+  - rewrite rev_app_distr. cbn [rev]. rewrite <- !app_assoc. cbn [app].
+    apply blocks_app; [exact IH|]. rewrite <- (app_nil_r (rev dones)).
+    apply blocks_sync; [apply Forall_rev; exact Hd|constructor].
   - cbn [rev]. rewrite rev_app_distr. cbn [rev]. rewrite <- !app_assoc. cbn [app].
-    apply blocks_app; [exact IH|]. apply blocks_flush; [exact Hi|apply Forall_rev; exact Hd|constructor].
+    apply blocks_app; [exact IH|]. apply blocks_sched; [exact Hi|apply Forall_rev; exact Hd|constructor].
 Qed.
 
-Definition ok (s s' : st) : Prop :=
-  exists evs, trace s' = evs ++ trace s /\ blocksR evs /\ grows s s' evs.
+Definition ok : st -> st -> Prop := ext blocksR.
 
 Lemma mild_ok s s' : mild s s' -> ok s s'.
-Proof. intros (evs & T & F & G). exists evs. split; [exact T|]. split; [apply blocksR_all_plain; exact F|exact G]. Qed.
+Proof. intros (evs & T & F & G). exists evs. split; [exact T|]. split; [apply blocksR_all_tame; exact F|exact G]. Qed.
 
-(* one scheduler flush is one block *)
+Lemma ok_refl s : ok s s. Proof. apply mild_ok, mild_refl. Qed.
+
+(* BatchBase.flush called outside the scheduler (item.value()): nothing, or one unbracketed block *)
+Lemma ok_flush_batch P k s : ok s (flush_batch P k s).
+Proof.
+  destruct (b_done (get_batch k s)) eqn:Hd; [rewrite (flush_done_is_noop P k s Hd); apply ok_refl|].
+  destruct (flush_batch_ext P k s Hd) as (evs & T & (dones & -> & F) & G).
+  exists (dones ++ [EvFlush (fst k) (snd k) (b_items (get_batch k s))]). split; [exact T|]. split; [|exact G].
+  apply blocksR_sync; [exact F|constructor].
+Qed.
+
+Lemma plain_flush_batch P k s :
+  exists evs, trace (flush_batch P k s) = evs ++ trace s /\ Forall plain evs.
+Proof.
+  destruct (b_done (get_batch k s)) eqn:Hd.
+  - rewrite (flush_done_is_noop P k s Hd). exists []. split; [reflexivity|constructor].
+  - destruct (flush_batch_ext P k s Hd) as (evs & T & (dones & -> & F) & G).
+    exists (dones ++ [EvFlush (fst k) (snd k) (b_items (get_batch k s))]). split; [exact T|].
+    apply Forall_app. split; [|repeat constructor].
+    revert F. apply Forall_impl. intros e. apply done_in_plain.
+Qed.
+
+(* one scheduler flush is one bracketed block *)
 Lemma ok_continue_with_batch P s : ok s (continue_with_batch P s).
 Proof.
   unfold continue_with_batch. pose proof (mild_select P s) as Q.
@@ -378,22 +483,19 @@ Proof.
   set (s3 := emit (EvBefore (fst k) (snd k)) s2).
   assert (Hgb : get_batch k s3 = get_batch k s) by (unfold get_batch, s3, s2; cbn; rewrite Hb; reflexivity).
   rewrite <- Hgb in Hne, Hd.
-  destruct (flush_pending P k s3 Hd) as ((dones & T & F) & _). cbn zeta in T.
-  destruct (mild_flush_batch P k s3) as (e4 & T4 & _ & G4).
+  destruct (flush_batch_ext P k s3 Hd) as (e4 & T4 & (dones & -> & F) & G4).
   destruct Q as (e1 & T1 & P1 & G1).
-  assert (E4 : e4 = dones ++ [EvFlush (fst k) (snd k) (b_items (get_batch k s3))]).
-  { apply (app_inv_tail (trace s3)). rewrite <- T4, T, <- app_assoc. reflexivity. }
   exists (EvAfter (fst k) (snd k) :: dones ++ EvFlush (fst k) (snd k) (b_items (get_batch k s3)) :: EvBefore (fst k) (snd k) :: e1).
   split; [|split].
   - change (trace (emit (EvAfter (fst k) (snd k)) (flush_batch P k s3)))
       with (EvAfter (fst k) (snd k) :: trace (flush_batch P k s3)).
-    rewrite T. change (trace s3) with (EvBefore (fst k) (snd k) :: trace s1). rewrite T1.
-    cbn [app]. rewrite <- app_assoc. reflexivity.
-  - apply blocksR_flush; [exact Hne|exact F|apply blocksR_all_plain; exact P1].
+    rewrite T4. change (trace s3) with (EvBefore (fst k) (snd k) :: trace s1). rewrite T1.
+    cbn [app]. rewrite <- !app_assoc. reflexivity.
+  - apply blocksR_sched; [exact Hne|exact F|apply blocksR_all_tame; exact P1].
   - intros D. destruct (G1 D) as [D1 C1].
     assert (D3 : dom s3) by exact D1.
     destruct (G4 D3) as [D4 C4]. split; [exact D4|]. intros h. specialize (C1 h). specialize (C4 h).
-    subst e4. change (computed h s3) with (computed h s1) in C4.
+    change (computed h s3) with (computed h s1) in C4.
     change (computed h (emit (EvAfter (fst k) (snd k)) (flush_batch P k s3))) with (computed h (flush_batch P k s3)).
     rewrite cnt_app in C4. change (cnt h [EvFlush (fst k) (snd k) (b_items (get_batch k s3))]) with O in C4.
     change (EvAfter (fst k) (snd k) :: dones ++ EvFlush (fst k) (snd k) (b_items (get_batch k s3)) :: EvBefore (fst k) (snd k) :: e1)
@@ -423,7 +525,6 @@ Ltac mh :=
   | |- mild _ (enter_ctx _ _ _) => eapply mild_trans; [|apply mild_enter_ctx]
   | |- mild _ (exit_ctx _ _ _) => eapply mild_trans; [|apply mild_exit_ctx]
   | |- mild _ (schedule_batch _ _) => eapply mild_trans; [|apply mild_schedule_batch]
-  | |- mild _ (flush_batch _ _ _) => eapply mild_trans; [|apply mild_flush_batch]
   end.
 
 Ltac destr_eq :=
@@ -440,6 +541,15 @@ Definition flushes (c : cfg) : bool :=
   | _, _ => false
   end.
 
+(* the only other transition that flushes: .value() on a batch item that is not computed
+   (batching.py 222-228), outside the scheduler's selection and without bracket events *)
+Definition syncs (c : cfg) : bool :=
+  match c_mode c with
+  | MValue h => negb (computed h (c_st c)) &&
+                match get h (c_st c) with Some (mkFut _ (KItem _ _ _ _)) => true | _ => false end
+  | _ => false
+  end.
+
 Lemma flushes_true c : flushes c = true ->
   c_mode c = MAfterExec /\ exists root fr, c_frames c = FWait root :: fr /\ computed root (c_st c) = false.
 Proof.
@@ -447,11 +557,25 @@ Proof.
   intros H. apply negb_true_iff in H. split; [reflexivity|]. exists root, fr. split; [reflexivity|exact H].
 Qed.
 
-Theorem step_mild P c : flushes c = false -> mild (c_st c) (c_st (step P c)).
+Lemma syncs_true c : syncs c = true ->
+  exists h out kind idx key a,
+    c_mode c = MValue h /\ computed h (c_st c) = false /\ get h (c_st c) = Some (mkFut out (KItem kind idx key a)).
 Proof.
-  destruct c as [m fr s]. unfold flushes. cbn [c_st c_mode c_frames]. intros HE.
+  unfold syncs. destruct (c_mode c) as [h| | | |t|t p| |o|e|o|]; try discriminate.
+  intros H. apply andb_true_iff in H as [H1 H2]. apply negb_true_iff in H1.
+  destruct (get h (c_st c)) as [[out [tk|kind idx key a|o|]]|] eqn:G; try discriminate.
+  exists h, out, kind, idx, key, a. auto.
+Qed.
+
+Theorem step_mild P c : flushes c = false -> syncs c = false -> mild (c_st c) (c_st (step P c)).
+Proof.
+  destruct c as [m fr s]. unfold flushes, syncs. cbn [c_st c_mode c_frames]. intros HE HS.
   destruct m as [h| | | |t|t p| |o|e|o|]; cbn [step c_mode c_frames c_st];
     try (destr_eq; mh; fail).
+  - (* MValue *)
+    destruct (computed h s) eqn:C; cbn [c_st]; [apply mild_refl|].
+    destruct (get h s) as [[out [tk|kind idx key a|o|]]|] eqn:G; cbn [c_st]; try (mh; fail).
+    cbn in HS. discriminate HS.
   - (* MAfterExec *)
     destruct fr as [|[| |root| |] fr']; cbn [c_st]; try apply mild_refl.
     destruct (computed root s) eqn:C; cbn [c_st]; [apply mild_refl|cbn in HE; discriminate].
@@ -464,11 +588,30 @@ Proof.
     + pose proof (mild_create t f s) as Qi. destruct (create t f s) as [h s1]. cbn [snd c_st] in *. exact Qi.
 Qed.
 
+Lemma step_syncs P c : syncs c = true -> exists k, c_st (step P c) = flush_batch P k (c_st c).
+Proof.
+  intros E. destruct (syncs_true c E) as (h & out & kind & idx & key & a & Hm & Hc & Hg).
+  destruct c as [m fr s]. cbn [c_mode c_st] in *. subst m. cbn [step c_mode c_frames c_st].
+  rewrite Hc, Hg. cbn [c_st]. exists (kind, idx). reflexivity.
+Qed.
+
 Theorem step_ok P c : ok (c_st c) (c_st (step P c)).
 Proof.
-  destruct (flushes c) eqn:E; [|apply mild_ok; apply step_mild; exact E].
-  destruct (flushes_true c E) as (Hm & root & fr & Hf & Hc). destruct c as [m fr0 s]. cbn [c_mode c_frames c_st] in *.
-  subst m fr0. cbn [step c_mode c_frames c_st]. rewrite Hc. cbn [c_st]. apply ok_continue_with_batch.
+  destruct (flushes c) eqn:E.
+  - destruct (flushes_true c E) as (Hm & root & fr & Hf & Hc). destruct c as [m fr0 s]. cbn [c_mode c_frames c_st] in *.
+    subst m fr0. cbn [step c_mode c_frames c_st]. rewrite Hc. cbn [c_st]. apply ok_continue_with_batch.
+  - destruct (syncs c) eqn:E2; [|apply mild_ok; apply step_mild; assumption].
+    destruct (step_syncs P c E2) as (k & ->). apply ok_flush_batch.
+Qed.
+
+(* every transition but the scheduler's flush emits plain events only *)
+Theorem step_plain P c : flushes c = false ->
+  exists evs, trace (c_st (step P c)) = evs ++ trace (c_st c) /\ Forall plain evs.
+Proof.
+  intros E. destruct (syncs c) eqn:E2.
+  - destruct (step_syncs P c E2) as (k & ->). apply plain_flush_batch.
+  - destruct (step_mild P c E E2) as (evs & T & F & _). exists evs. split; [exact T|].
+    revert F. apply Forall_impl. exact tame_plain.
 Qed.
 
 (* ------------------------------------------------------------------ T2, step level *)
@@ -479,7 +622,7 @@ Theorem step_bracket_origin P c evs e :
   c_mode c = MAfterExec /\ exists root fr, c_frames c = FWait root :: fr /\ computed root (c_st c) = false.
 Proof.
   intros T Hin Hnp. destruct (flushes c) eqn:E; [exact (flushes_true c E)|].
-  destruct (step_mild P c E) as (evs' & T' & F & _).
+  destruct (step_plain P c E) as (evs' & T' & F).
   assert (evs = evs') by (apply (app_inv_tail (trace (c_st c))); rewrite <- T, <- T'; reflexivity). subst evs'.
   rewrite Forall_forall in F. destruct (Hnp (F e Hin)).
 Qed.
@@ -598,37 +741,48 @@ Qed.
 Theorem run_case_blocks P fuel ps : blocks (snd (run_case P fuel ps)).
 Proof. destruct (Inv_run_case P fuel ps) as (s & -> & (_ & B & _)). apply blocksR_rev. exact B. Qed.
 
+(* the same for one run of the machine from any state satisfying the invariant *)
+Theorem run_blocks P n c : Inv (c_st c) -> blocks (rev (trace (c_st (run P n c)))).
+Proof. intros HI. destruct (Inv_run P n c HI) as (_ & B & _). apply blocksR_rev. exact B. Qed.
+
 Lemma app_eq_split {A} (a b : list A) x : forall c d,
-  a ++ b = c ++ x :: d -> In x a \/ exists c', c = a ++ c' /\ b = c' ++ x :: d.
+  a ++ b = c ++ x :: d ->
+  (exists a2, a = c ++ x :: a2 /\ d = a2 ++ b) \/ (exists c', c = a ++ c' /\ b = c' ++ x :: d).
 Proof.
   induction a as [|y a IH]; intros c d H; cbn [app] in H.
   - right. exists c. split; [reflexivity|exact H].
-  - destruct c as [|z c]; cbn [app] in H; inversion H; subst.
-    + left. left. reflexivity.
-    + destruct (IH c d H2) as [Hin|(c' & -> & ->)]; [left; right; exact Hin|].
-      right. exists c'. split; reflexivity.
+  - destruct c as [|z c]; cbn [app] in H; injection H as Hy Ht.
+    + subst y d. left. exists a. split; reflexivity.
+    + subst z. destruct (IH c d Ht) as [(a2 & -> & ->)|(c' & -> & ->)].
+      * left. exists a2. split; reflexivity.
+      * right. exists c'. split; reflexivity.
 Qed.
 
-Lemma flush_event_not_bracket dones e : Forall flush_event dones -> In e dones -> plain e.
-Proof. intros F Hin. rewrite Forall_forall in F. specialize (F e Hin). destruct e; cbn in *; auto. Qed.
+Lemma done_in_mid items l x r : Forall (done_in items) (l ++ x :: r) -> done_in items x /\ Forall (done_in items) l.
+Proof. intros H. apply Forall_app in H as [Hl Hr]. inversion Hr; subst. auto. Qed.
 
 (* every EvBefore is immediately followed by the EvFlush of the same batch with a non-empty item list,
-   then only item completions, then the EvAfter of the same batch *)
+   then only completions of items of that batch, then the EvAfter of the same batch *)
 Lemma blocks_before tr : blocks tr -> forall l1 l2 kind idx,
   tr = l1 ++ EvBefore kind idx :: l2 ->
   exists items dones l3, l2 = EvFlush kind idx items :: dones ++ EvAfter kind idx :: l3 /\
-                         items <> [] /\ Forall flush_event dones.
+                         items <> [] /\ Forall (done_in items) dones.
 Proof.
-  intros H. induction H as [|e tr He Ht IH|k0 i0 items dones tr Hi Hd Ht IH]; intros l1 l2 kind idx E.
+  intros H. induction H as [|e tr He Ht IH|k0 i0 items dones tr Hd Ht IH|k0 i0 items dones tr Hi Hd Ht IH];
+    intros l1 l2 kind idx E.
   - destruct l1; discriminate.
   - destruct l1 as [|x l1]; cbn [app] in E; injection E as Ex Et.
     + subst e. destruct He.
     + exact (IH l1 l2 kind idx Et).
+  - destruct l1 as [|x l1]; cbn [app] in E; [discriminate E|]. injection E as Ex Et.
+    destruct (app_eq_split _ _ _ _ _ Et) as [(a2 & -> & _)|(c' & -> & Hc)].
+    + destruct (done_in_mid _ _ _ _ Hd) as [Hx _]. destruct Hx.
+    + exact (IH c' l2 kind idx Hc).
   - destruct l1 as [|x l1]; cbn [app] in E; injection E as Ex Et.
     + inversion Ex; subst. exists items, dones, tr. auto.
     + destruct l1 as [|y l1]; cbn [app] in Et; [discriminate Et|]. injection Et as Ey Et.
-      destruct (app_eq_split _ _ _ _ _ Et) as [Hin|(c' & -> & Hc)].
-      * destruct (flush_event_not_bracket dones _ Hd Hin).
+      destruct (app_eq_split _ _ _ _ _ Et) as [(a2 & -> & _)|(c' & -> & Hc)].
+      * destruct (done_in_mid _ _ _ _ Hd) as [Hx _]. destruct Hx.
       * destruct c' as [|z c']; cbn [app] in Hc; [discriminate Hc|]. injection Hc as Ez Hc.
         exact (IH c' l2 kind idx Hc).
 Qed.
@@ -637,18 +791,24 @@ Qed.
 Lemma blocks_after tr : blocks tr -> forall l1 l2 kind idx,
   tr = l1 ++ EvAfter kind idx :: l2 ->
   exists items dones l0, l1 = l0 ++ EvBefore kind idx :: EvFlush kind idx items :: dones /\
-                         items <> [] /\ Forall flush_event dones.
+                         items <> [] /\ Forall (done_in items) dones.
 Proof.
-  intros H. induction H as [|e tr He Ht IH|k0 i0 items dones tr Hi Hd Ht IH]; intros l1 l2 kind idx E.
+  intros H. induction H as [|e tr He Ht IH|k0 i0 items dones tr Hd Ht IH|k0 i0 items dones tr Hi Hd Ht IH];
+    intros l1 l2 kind idx E.
   - destruct l1; discriminate.
   - destruct l1 as [|x l1]; cbn [app] in E; injection E as Ex Et.
     + subst e. destruct He.
     + destruct (IH l1 l2 kind idx Et) as (items & dones & l0 & -> & Hi & Hd).
       exists items, dones, (x :: l0). auto.
   - destruct l1 as [|x l1]; cbn [app] in E; [discriminate E|]. injection E as Ex Et.
+    destruct (app_eq_split _ _ _ _ _ Et) as [(a2 & -> & _)|(c' & -> & Hc)].
+    + destruct (done_in_mid _ _ _ _ Hd) as [Hx _]. destruct Hx.
+    + destruct (IH c' l2 kind idx Hc) as (items' & dones' & l0 & -> & Hi' & Hd').
+      exists items', dones', (x :: dones ++ l0). split; [|auto]. cbn [app]. rewrite <- app_assoc. reflexivity.
+  - destruct l1 as [|x l1]; cbn [app] in E; [discriminate E|]. injection E as Ex Et.
     destruct l1 as [|y l1]; cbn [app] in Et; [discriminate Et|]. injection Et as Ey Et.
-    destruct (app_eq_split _ _ _ _ _ Et) as [Hin|(c' & -> & Hc)].
-    + destruct (flush_event_not_bracket dones _ Hd Hin).
+    destruct (app_eq_split _ _ _ _ _ Et) as [(a2 & -> & _)|(c' & -> & Hc)].
+    + destruct (done_in_mid _ _ _ _ Hd) as [Hx _]. destruct Hx.
     + subst x y. destruct c' as [|z c']; cbn [app] in Hc; injection Hc as Ez Hc.
       * inversion Ez; subst. exists items, dones, []. rewrite app_nil_r. auto.
       * destruct (IH c' l2 kind idx Hc) as (items' & dones' & l0 & -> & Hi' & Hd').
@@ -656,21 +816,53 @@ Proof.
         split; [|auto]. subst z. cbn [app]. rewrite <- app_assoc. reflexivity.
 Qed.
 
+(* every item completion belongs to a flush of a batch that contains the item: it is preceded by that
+   flush's EvFlush with only completions of items of the same batch in between *)
+Lemma blocks_item tr : blocks tr -> forall l1 l2 h o,
+  tr = l1 ++ EvItemDone h o :: l2 ->
+  exists kind idx items l0 dones, l1 = l0 ++ EvFlush kind idx items :: dones /\
+                                  In h items /\ Forall (done_in items) dones.
+Proof.
+  intros H. induction H as [|e tr He Ht IH|k0 i0 items dones tr Hd Ht IH|k0 i0 items dones tr Hi Hd Ht IH];
+    intros l1 l2 h o E.
+  - destruct l1; discriminate.
+  - destruct l1 as [|x l1]; cbn [app] in E; injection E as Ex Et.
+    + subst e. destruct He.
+    + destruct (IH l1 l2 h o Et) as (kind & idx & items & l0 & dones & -> & Hi & Hd).
+      exists kind, idx, items, (x :: l0), dones. auto.
+  - destruct l1 as [|x l1]; cbn [app] in E; [discriminate E|]. injection E as Ex Et. subst x.
+    destruct (app_eq_split _ _ _ _ _ Et) as [(a2 & -> & _)|(c' & -> & Hc)].
+    + destruct (done_in_mid _ _ _ _ Hd) as [Hx Hl]. exists k0, i0, items, [], l1. auto.
+    + destruct (IH c' l2 h o Hc) as (kind & idx & items' & l0 & dones' & -> & Hi' & Hd').
+      exists kind, idx, items', (EvFlush k0 i0 items :: dones ++ l0), dones'. split; [|auto].
+      cbn [app]. rewrite <- app_assoc. reflexivity.
+  - destruct l1 as [|x l1]; cbn [app] in E; [discriminate E|]. injection E as Ex Et.
+    destruct l1 as [|y l1]; cbn [app] in Et; [discriminate Et|]. injection Et as Ey Et. subst x y.
+    destruct (app_eq_split _ _ _ _ _ Et) as [(a2 & -> & _)|(c' & -> & Hc)].
+    + destruct (done_in_mid _ _ _ _ Hd) as [Hx Hl]. exists k0, i0, items, [EvBefore k0 i0], l1. auto.
+    + destruct c' as [|z c']; cbn [app] in Hc; injection Hc as Ez Hc; [discriminate Ez|]. subst z.
+      destruct (IH c' l2 h o Hc) as (kind & idx & items' & l0 & dones' & -> & Hi' & Hd').
+      exists kind, idx, items', (EvBefore k0 i0 :: EvFlush k0 i0 items :: dones ++ EvAfter k0 i0 :: l0), dones'.
+      split; [|auto]. cbn [app]. rewrite <- app_assoc. reflexivity.
+Qed.
+
 Theorem run_case_before_flush_after P fuel ps l1 l2 kind idx :
   snd (run_case P fuel ps) = l1 ++ EvBefore kind idx :: l2 ->
   exists items dones l3, l2 = EvFlush kind idx items :: dones ++ EvAfter kind idx :: l3 /\
-                         items <> [] /\ Forall flush_event dones.
+                         items <> [] /\ Forall (done_in items) dones.
 Proof. apply blocks_before. apply run_case_blocks. Qed.
 
 Theorem run_case_after_closes_block P fuel ps l1 l2 kind idx :
   snd (run_case P fuel ps) = l1 ++ EvAfter kind idx :: l2 ->
   exists items dones l0, l1 = l0 ++ EvBefore kind idx :: EvFlush kind idx items :: dones /\
-                         items <> [] /\ Forall flush_event dones.
+                         items <> [] /\ Forall (done_in items) dones.
 Proof. apply blocks_after. apply run_case_blocks. Qed.
 
-(* the same for one run of the machine from any state satisfying the invariant *)
-Theorem run_blocks P n c : Inv (c_st c) -> blocks (rev (trace (c_st (run P n c)))).
-Proof. intros HI. destruct (Inv_run P n c HI) as (_ & B & _). apply blocksR_rev. exact B. Qed.
+Theorem run_case_item_done_by_its_flush P fuel ps l1 l2 h o :
+  snd (run_case P fuel ps) = l1 ++ EvItemDone h o :: l2 ->
+  exists kind idx items l0 dones, l1 = l0 ++ EvFlush kind idx items :: dones /\
+                                  In h items /\ Forall (done_in items) dones.
+Proof. apply blocks_item. apply run_case_blocks. Qed.
 
 (* ------------------------------------------------------------------ each bracket event at most once *)
 Definition is_before (k : Z * Z) (e : event) : bool :=
@@ -680,7 +872,7 @@ Definition is_after (k : Z * Z) (e : event) : bool :=
 Definition count_before (k : Z * Z) (tr : list event) : nat := length (filter (is_before k) tr).
 Definition count_after (k : Z * Z) (tr : list event) : nat := length (filter (is_after k) tr).
 
-Lemma dones_no_marks k dones : Forall flush_event dones ->
+Lemma dones_no_marks k items dones : Forall (done_in items) dones ->
   filter (is_before k) dones = [] /\ filter (is_after k) dones = [] /\ filter (is_flush k) dones = [].
 Proof.
   intros H. induction H as [|e l He Hl IH]; [auto|]. destruct e; cbn in He; try destruct He. cbn. exact IH.
@@ -690,11 +882,14 @@ Lemma blocks_counts k tr : blocks tr ->
   count_before k tr = count_after k tr /\ (count_before k tr <= count_flush k tr)%nat.
 Proof.
   unfold count_before, count_after, count_flush.
-  intros H. induction H as [|e tr He Ht IH|k0 i0 items dones tr Hi Hd Ht IH]; [split; [reflexivity|cbn; lia]| |].
+  intros H. induction H as [|e tr He Ht IH|k0 i0 items dones tr Hd Ht IH|k0 i0 items dones tr Hi Hd Ht IH];
+    [split; [reflexivity|cbn; lia]| | |].
   - destruct IH as [IH1 IH2]. destruct e; cbn [filter is_before is_after is_flush] in *; try destruct He;
-      try (split; [exact IH1|exact IH2]).
-    destruct (key_eqb (kind, idx) k); cbn [length]; split; try exact IH1; lia.
-  - destruct IH as [IH1 IH2]. destruct (dones_no_marks k dones Hd) as (N1 & N2 & N3).
+      split; assumption.
+  - destruct IH as [IH1 IH2]. destruct (dones_no_marks k items dones Hd) as (N1 & N2 & N3).
+    cbn [filter is_before is_after is_flush]. rewrite !filter_app, N1, N2, N3. cbn [app].
+    destruct (key_eqb (k0, i0) k); cbn [length]; split; lia.
+  - destruct IH as [IH1 IH2]. destruct (dones_no_marks k items dones Hd) as (N1 & N2 & N3).
     cbn [filter is_before is_after is_flush]. rewrite !filter_app, N1, N2, N3. cbn [app filter is_before is_after is_flush].
     destruct (key_eqb (k0, i0) k); cbn [length]; split; lia.
 Qed.
